@@ -65,10 +65,25 @@ def vh(args, outfile, profile="release", timeout=1800, append=False):
     """Run the harness, writing its stdout (ndjson) to outfile."""
     binp = build_harness(profile)
     os.makedirs(os.path.dirname(outfile), exist_ok=True)
-    with open(outfile, "a" if append else "w") as f:
-        r = subprocess.run([binp] + [str(a) for a in args], stdout=f, stderr=subprocess.PIPE, text=True, timeout=timeout)
-    if r.returncode != 0:
-        raise ToolError("harness %s failed (%d): %s" % (args[0], r.returncode, r.stderr[-2000:]))
+    skip = 0
+    first = True
+    while True:
+        extra = ["--skip", str(skip)] if skip else []
+        with open(outfile, "a" if (append or not first) else "w") as f:
+            try:
+                r = subprocess.run([binp] + [str(a) for a in args] + extra, stdout=f, stderr=subprocess.PIPE, text=True, timeout=timeout)
+            except subprocess.TimeoutExpired:
+                raise ToolError("harness %s timed out after %ds" % (args[0], timeout))
+        first = False
+        m = re.search(r"RESUME (\d+)", r.stderr or "")
+        if r.returncode == 3 and m:
+            # a library call never returned (recorded as outcome "timeout"); the recorder stopped
+            # after that session because the runaway thread cannot be killed - restart behind it
+            skip = int(m.group(1))
+            continue
+        if r.returncode != 0:
+            raise ToolError("harness %s failed (%d): %s" % (args[0], r.returncode, r.stderr[-2000:]))
+        break
 
 
 ALL_INV = {
